@@ -255,8 +255,22 @@ func (p *Pool) sync() {
 	}
 }
 
+// leftoverMu guards the modelled contents outside the scheduler (see Get).
+var leftoverMu sync.Mutex
+
 func (p *Pool) Get() any {
 	if sched.Active() == nil {
+		// What the last scheduled execution left in the pool is what a call made right after it
+		// (an oracle's follow-up request on the same system) gets: objects do not vanish because
+		// the scheduler was taken away.
+		leftoverMu.Lock()
+		if n := len(p.items); n > 0 && p.epoch == poolEpoch {
+			x := p.items[n-1]
+			p.items = p.items[:n-1]
+			leftoverMu.Unlock()
+			return x
+		}
+		leftoverMu.Unlock()
 		if p.real.New == nil && p.New != nil {
 			p.real.New = p.New
 		}
